@@ -584,14 +584,14 @@ impl<'a> Run<'a> {
                 lits.push(-9);
                 l.tainted = true;
                 let scalar = Ind::has_scalar(&l.cfg.kind) && name != "tokb";
-                inrec = if scalar { InRec::S(x) } else { InRec::B(Bar::one(x)) };
+                let mut bar = Bar::one(x);
+                if matches!(l.cfg.kind.as_str(), "MFI" | "OBV") {
+                    bar.v = x; // the kinds that read volume get the value there too (DataItem accepts an infinite volume)
+                }
+                inrec = if scalar { InRec::S(x) } else { InRec::B(bar) };
                 raw = if scalar {
                     catch_unwind(AssertUnwindSafe(|| l.ind.next_s(x))).map_err(|_| ())
                 } else {
-                    let mut bar = Bar::one(x);
-                    if matches!(l.cfg.kind.as_str(), "MFI" | "OBV") {
-                        bar.v = x; // the kinds that read volume get the value there too (DataItem accepts an infinite volume)
-                    }
                     catch_unwind(AssertUnwindSafe(|| Some(l.ind.next_b(&bar)))).map_err(|_| ())
                 };
             }
@@ -778,6 +778,12 @@ impl<'a> Run<'a> {
             let ev: Vec<i64> = e.iter().map(|x| x.as_i64().unwrap()).collect();
             l.eff = h2(l.eff, &ev, 2);
         }
+        // distinct non-trivial cases: (kind, periods, literal input history since reset) of every step that carries an expectation
+        if ctx.distinct.len() < 4_000_000 {
+            let mut hk = DefaultHasher::new();
+            l.cfg.key.hash(&mut hk);
+            ctx.distinct.insert(h2(l.strict ^ hk.finish(), &[l.t as i64], 7));
+        }
         if let Some(t) = o["t"].as_u64() {
             if t != l.t {
                 ctx.violate(self.line_no, &unit, idx, Some(&l), "harness-step-count-mismatch", json!({"spec_t": t}));
@@ -909,9 +915,6 @@ impl<'a> Run<'a> {
         }
         // ---- value comparison against the exact reference
         if has(&prop, "value") && !tie_skip && !unit.warped() {
-            if ctx.distinct.len() < 50_000_000 {
-                ctx.distinct.insert(h2(l.strict, &[l.t as i64, l.cfg.per.iter().sum::<usize>() as i64], l.cfg.kind.len() as u8));
-            }
             for (k, f) in fields.iter().enumerate() {
                 let r = rat(&f["r"]);
                 let cls = f["cls"].as_str().unwrap_or("none");
